@@ -172,3 +172,17 @@ pub fn yield_point(name: &'static str) {
         hook(name);
     }
 }
+
+thread_local! {
+    static INDEX_FLUSH_COUNT: std::cell::Cell<Option<usize>> = const { std::cell::Cell::new(None) };
+}
+
+/// H6: indexers created on the calling thread from now on write out their index file after `count` blobs
+/// (instead of 50000); the real code does the same whenever 5 minutes have passed, at any blob count.
+pub fn set_index_flush_count(count: Option<usize>) {
+    INDEX_FLUSH_COUNT.with(|c| c.set(count));
+}
+
+pub(crate) fn index_flush_count() -> Option<usize> {
+    INDEX_FLUSH_COUNT.with(std::cell::Cell::get)
+}
